@@ -62,6 +62,17 @@ Theorem C06_partname_fresh : forall pre post names,
 Proof. exact partname_fresh. Qed.
 Print Assumptions C06_partname_fresh.
 
+(** which one: the largest free candidate not above one more than the number of distinct
+    part names sharing the prefix of the template *)
+Theorem C06_partname_largest : forall pre post names r,
+  next_partname pre post names = Ok r ->
+  exists k, (1 <= k <= N.of_nat (S (length (dedup (filter (starts_with (tmpl_prefix pre post)) names)))))%N /\
+    r = tmpl_apply pre post k /\
+    forall j, (k < j <= N.of_nat (S (length (dedup (filter (starts_with (tmpl_prefix pre post)) names)))))%N ->
+              In (tmpl_apply pre post j) names.
+Proof. exact partname_largest. Qed.
+Print Assumptions C06_partname_largest.
+
 Theorem C06_image_idx : forall names,
   (1 <= next_image_idx names /\ ~ In (next_image_idx names) (image_idxs names)) /\
   (NoDup (image_idxs names) -> (forall x, In x (image_idxs names) -> 1 <= x) ->
@@ -127,13 +138,13 @@ Theorem C06_shape_alloc_total : forall ids,
 Proof. exact shape_alloc_total. Qed.
 Print Assumptions C06_shape_alloc_total.
 
-(** what isdecimal admits and int refuses: only the length limit *)
+(** what isdecimal accepts and int refuses: only the length limit *)
 Theorem C06_isdecimal_int_fails_iff : forall s, py_isdecimal s = true ->
   (py_int s = Err ValueErr <-> (max_str_digits < N.of_nat (length s))%N).
 Proof. exact isdecimal_int_fails_iff. Qed.
 Print Assumptions C06_isdecimal_int_fails_iff.
 
-(** (about the builtins, kept: what isdigit admits and int refuses -- the former defect) *)
+(** (about the builtins, kept: what isdigit accepts and int refuses -- the former defect) *)
 Theorem C06_isdigit_int_fails_iff : forall s, py_isdigit s = true ->
   (py_int s = Err ValueErr <->
    (forallb is_dec s = false \/ (max_str_digits < N.of_nat (length s))%N)).
@@ -286,22 +297,51 @@ Theorem C06_rename_collision_iff : forall prels rIds targets names names',
 Proof. exact rename_collision_iff. Qed.
 Print Assumptions C06_rename_collision_iff.
 
-Theorem C06_next_slide_partname_collision : forall prels rIds targets names names' q,
+(** FINDING (known, unlisted-slide-partname-collision): a slide part related to the
+    presentation but not listed in p:sldIdLst keeps its name while a listed slide is renamed
+    onto it (all names distinct beforehand, hypotheses of C06_rename met). *)
+Theorem C06_rename_unlisted_refuted :
+  exists prels rIds targets names names',
+    resolves prels rIds targets /\ NoDup targets /\ (forall p, In p targets -> (p < length names)%nat) /\
+    NoDup names /\ rename_slide_parts prels rIds names = Ok names' /\
+    exists p q s, p <> q /\ nth_error names' p = Some s /\ nth_error names' q = Some s.
+Proof. exact rename_unlisted_refuted. Qed.
+Print Assumptions C06_rename_unlisted_refuted.
+
+Theorem C06_rename_effect_ok : forall prels rIds names names',
+  rename_slide_parts prels rIds names = Ok names' -> rename_effect prels rIds names = names'.
+Proof. exact rename_effect_ok. Qed.
+Print Assumptions C06_rename_effect_ok.
+
+(* ---------------------------------------------------------------- _next_slide_partname *)
+
+(** the part name add_slide gives the new slide, for n p:sldId entries and ANY list of the
+    part names reachable in the package: the call does not raise; the result is a slide part
+    name slideK.xml, K at least 1; no reachable part carries it; it is the conventional
+    slide(n+1).xml whenever no reachable part carries that name *)
+Theorem C06_next_slide_partname : forall n names,
+  exists k, (1 <= k)%N /\ next_slide_partname n names = Ok (slide_name k) /\
+            ~ In (slide_name k) names /\
+            (~ In (slide_name (N.of_nat n + 1)%N) names -> k = (N.of_nat n + 1)%N).
+Proof. exact next_slide_partname_spec. Qed.
+Print Assumptions C06_next_slide_partname.
+
+(** otherwise it is what OpcPackage.next_partname answers over the same parts *)
+Theorem C06_next_slide_partname_taken : forall n names,
+  In (slide_name (N.of_nat n + 1)%N) names ->
+  next_slide_partname n names = next_partname s_slide_pre s_xml_post names.
+Proof. exact next_slide_partname_taken. Qed.
+Print Assumptions C06_next_slide_partname_taken.
+
+(** after prs.slides the conventional name is taken exactly when a part the id list does not
+    list carries it *)
+Theorem C06_next_slide_conventional_taken_iff : forall prels rIds targets names names' q,
   resolves prels rIds targets -> NoDup targets -> (forall p, In p targets -> (p < length names)%nat) ->
   rename_slide_parts prels rIds names = Ok names' ->
-  (nth_error names' q = Some (next_slide_partname (length rIds)) <->
-   ~ In q targets /\ nth_error names q = Some (next_slide_partname (length rIds))).
-Proof. exact next_slide_partname_collision. Qed.
-Print Assumptions C06_next_slide_partname_collision.
-
-(** FINDING: a slide part related to the presentation but not listed in p:sldIdLst makes
-    the next slide name collide (all names distinct beforehand). *)
-Theorem C06_slide_partname_unlisted_refuted :
-  exists prels rIds names names',
-    NoDup names /\ rename_slide_parts prels rIds names = Ok names' /\
-    In (next_slide_partname (length rIds)) names'.
-Proof. exact slide_partname_unlisted_refuted. Qed.
-Print Assumptions C06_slide_partname_unlisted_refuted.
+  (nth_error names' q = Some (slide_name (N.of_nat (length rIds) + 1)%N) <->
+   ~ In q targets /\ nth_error names q = Some (slide_name (N.of_nat (length rIds) + 1)%N)).
+Proof. exact next_slide_conventional_taken_iff. Qed.
+Print Assumptions C06_next_slide_conventional_taken_iff.
 
 Theorem C06_rename_keyerr : forall prels rIds names,
   (exists r, In r rIds /\ lookup_rel r prels = None) ->
@@ -379,3 +419,34 @@ Proof. vm_compute. reflexivity. Qed.
 Example C06_ex_resolves :
   resolves [(rId_name 2, 1%nat); (rId_name 5, O)] [rId_name 2; rId_name 5] [1%nat; O].
 Proof. repeat constructor. Qed.
+
+(** the witness of C06_rename_unlisted_refuted: slide2.xml listed, slide1.xml related only *)
+Example C06_ex_rename_unlisted :
+  rename_slide_parts [(rId_name 1, O); (rId_name 2, 1%nat)] [rId_name 1] [slide_name 2; slide_name 1]
+  = Ok [slide_name 1; slide_name 1].
+Proof. vm_compute. reflexivity. Qed.
+
+(** _next_slide_partname: the conventional name when it is free (hypothesis of the last
+    conjunct of C06_next_slide_partname met) ... *)
+Example C06_ex_next_slide_free :
+  ~ In (slide_name 3) [slide_name 1; slide_name 2; s_img_prefix] /\
+  next_slide_partname 2 [slide_name 1; slide_name 2; s_img_prefix] = Ok (slide_name 3).
+Proof.
+  split; [|vm_compute; reflexivity].
+  intros [H|[H|[H|[]]]]; try (apply Ids_proofs.slide_name_inj in H; discriminate). discriminate.
+Qed.
+(** ... three slides, the second one removed (relationship dropped, p:sldId removed): slide3.xml is
+    taken (hypothesis of C06_next_slide_partname_taken met), the downward search finds slide2.xml ... *)
+Example C06_ex_next_slide_gap :
+  In (slide_name 3) [slide_name 1; slide_name 3] /\
+  next_slide_partname 2 [slide_name 1; slide_name 3] = Ok (slide_name 2).
+Proof. split; [right; left; reflexivity|vm_compute; reflexivity]. Qed.
+(** ... one slide listed, a second one related but not listed: slide2.xml is taken *)
+Example C06_ex_next_slide_unlisted :
+  next_slide_partname 1 [slide_name 1; slide_name 2] = Ok (slide_name 3).
+Proof. vm_compute. reflexivity. Qed.
+(** ... a rename that raised half way: the effect is what the search sees *)
+Example C06_ex_rename_effect :
+  rename_slide_parts [(rId_name 1, O)] [rId_name 1; rId_name 9] [slide_name 3; slide_name 4] = Err KeyErr /\
+  rename_effect [(rId_name 1, O)] [rId_name 1; rId_name 9] [slide_name 3; slide_name 4] = [slide_name 1; slide_name 4].
+Proof. vm_compute. split; reflexivity. Qed.
